@@ -671,7 +671,17 @@ func main() {
 	w("  listDefault := %s\n", listDefault)
 	w("  mapTable := [\n    %s]\n", strings.Join(mapEntries, ",\n    "))
 	w("  mapDefault := ⟨%s, %s, %s, %s⟩\n", md.castK, md.castV, md.kw, md.vw)
-	w("  mapBinaryGuard := %v\n}\n\n", binaryGuard)
+	w("  mapBinaryGuard := %v\n", binaryGuard)
+	// decoder.go: the string decoders decide []byte-vs-string with a test that looks through a
+	// pointer node (optional `*[]byte` fields carry T_pointer on the node and T_binary on its element)
+	ibt := findFunc(rf, "isBinaryType")
+	dsn := findFunc(rf, "decodeStringNoCopy")
+	dty0 := findMethod(rf, "tDecoder", "decodeType")
+	throughPtr := ibt != nil && contains(ibt, `return t\.Tag == defs\.T_binary \|\| \(t\.IsPointer && t\.V\.Tag == defs\.T_binary\)`) &&
+		dsn != nil && dty0 != nil &&
+		!contains(dsn, `t\.Tag == defs\.T_binary`) && !contains(dty0, `t\.Tag == defs\.T_binary`) &&
+		strings.Count(src(dsn), "isBinaryType(t)") == 2 && strings.Count(src(dty0), "isBinaryType(t)") == 2
+	w("  binarySeesThroughPtr := %v\n}\n\n", throughPtr)
 
 	// ---- facts ----
 	w("def facts : Facts := {\n")
@@ -744,6 +754,43 @@ func main() {
 			return true
 		})
 	}
+	// C05: in decodeType every allocation whose size depends on a length / count read from the wire
+	// (d.Malloc(l…), reflect.MakeMapWithSize(t.RT, l)) comes, inside its case clause, after the
+	// statement that rejects a length / count exceeding what the remaining input can hold
+	allocOK, allocSites := dty != nil, 0
+	if dty != nil {
+		ast.Inspect(dty.Body, func(n ast.Node) bool {
+			cc, ok := n.(*ast.CaseClause)
+			if !ok {
+				return true
+			}
+			var checkEnd token.Pos
+			for _, st := range cc.Body {
+				if ifs, ok := st.(*ast.IfStmt); ok && checkEnd == 0 &&
+					contains(ifs.Body, `return \w+, newSizeExceedsBufferException\(l, `) &&
+					contains(ifs.Cond, `^l > `) {
+					checkEnd = ifs.End()
+				}
+			}
+			for _, st := range cc.Body {
+				ast.Inspect(st, func(m ast.Node) bool {
+					ce, ok := m.(*ast.CallExpr)
+					if !ok {
+						return true
+					}
+					t := strings.Join(strings.Fields(src(ce)), "")
+					if strings.HasPrefix(t, "d.Malloc(l") || strings.HasPrefix(t, "reflect.MakeMapWithSize(t.RT,l") {
+						allocSites++
+						if checkEnd == 0 || ce.Pos() < checkEnd {
+							allocOK = false
+						}
+					}
+					return true
+				})
+			}
+			return false
+		})
+	}
 	zeroTests := 0
 	for _, fd := range []*ast.FuncDecl{dec, dty} {
 		if fd != nil && len(fd.Body.List) > 0 && contains(fd.Body.List[0], `^if maxdepth == 0 \{ return 0, errDepthLimitExceeded \}$`) {
@@ -751,6 +798,7 @@ func main() {
 		}
 	}
 	w("  recursionDecrements := %v\n  recursiveCalls := %d\n  depthZeroTests := %d\n", decrements, nRec, zeroTests)
+	w("  allocAfterSizeCheck := %v\n  allocSitesSized := %d\n", allocOK, allocSites)
 	top := findFunc(rf, "Decode")
 	w("  topLevelUsesLimit := %v\n", contains(top, `d\.Decode\(b, rv\.UnsafePointer\(\), sd, maxDepthLimit\)`))
 	// C08
